@@ -33,7 +33,7 @@ PROPS = {
         ],
     },
     'C12': {
-        'v_units': ['joblist'],
+        'v_units': ['joblist', 'asynclist'],
         'k_units': ['joblist'],
         'level': 'other',
         'explanation': (
@@ -44,7 +44,8 @@ PROPS = {
             'selectors any_suspended_job_but_current / any_job_but_current are assumed in that proof; their contract and the '
             'job-id resolution (%%, %+, %-, %n) are checked by Kani on the real code for concrete table shapes with all '
             'contents symbolic (bounded: <= 3 slab slots quick, plus mutator cross-checks in the thorough tier). Level is '
-            '"other" because the Kani part is bounded; the Verus part alone is an unbounded proof modulo the listed assumptions.'),
+            '"other" because the Kani part is bounded; the Verus part alone is an unbounded proof modulo the listed assumptions.'
+            " Unit asynclist (Verus, yash-semantics/src/command/item.rs Item::execute, execute_async, async_body, nullify_stdin): a synchronous item is exactly its and-or list, run in this shell, once; for `cmd &` exactly one child is started for exactly this and-or list, with background job control asked for and SIGINT / SIGQUIT ignored in it, the list does not run in this shell and the child is not awaited; if it was started, one job with its process ID enters the job table (owned, running, not yet reported; job-controlled iff job control was granted), `$!` becomes that process ID and `$?` is 0; if not, no job, `$!` untouched, an interrupt with status 126. In the child the list runs exactly once, its result is applied and the EXIT trap runs once, in this order; under job control standard input is left alone; nullify_stdin makes standard input /dev/null and changes nothing else (its assert_eq! is discharged from POSIX's lowest-free-descriptor rule)."),
         'trusted_base': ['Verus 0.2026.09.13 + Z3', 'Kani 0.68.0 + CBMC 6.11 (CaDiCaL)', 'vstd HashMap/Entry and iterator specifications',
                          '/verif/tools/vextract.py, /verif/tools/kunit.py'],
         'assumptions': [
@@ -52,6 +53,7 @@ PROPS = {
             'Pid obeys vstd\'s hash key model (derived Hash/Eq on a newtype over i32): part of wf as a precondition',
             'libc::pid_t is i32 on this platform',
             'precondition of insert taken from the property quantifier: the pid is fresh or belongs to a job that is not alive',
+            'unit asynclist: Config::new is the derived Default (assumed: no job control, nothing ignored); config.start(..) with its async closure is an opaque call recording the configuration and the and-or list (unit subshellstart has the real start); JobList::insert / set_last_async_pid, AndOrList::execute / to_string, apply_result, run_exit_trap, print_error, is_interactive opaque; the descriptor table is a model trait (close; open answers the lowest free descriptor); the C-string literal is a helper call (Verus has none); that standard input IS /dev/null without job control is proved for nullify_stdin but only stated for the job-control case in async_body (a failing nullify is ignored by the code); await points dropped',
         ],
     },
     'C11': {
@@ -99,7 +101,7 @@ PROPS = {
         ],
     },
     'C08': {
-        'v_units': ['trap', 'pipeset', 'subshellcmd', 'cmdsubst', 'subshellstart'],
+        'v_units': ['trap', 'pipeset', 'subshellcmd', 'cmdsubst', 'subshellstart', 'asynclist'],
         'k_units': [],
         'level': 'proof',
         'explanation': (
@@ -120,7 +122,8 @@ PROPS = {
             'The descriptor table is an assumed model of the Pipe / Close / Dup traits.'
             ' Unit subshellcmd (Verus, compound_command/subshell.rs execute + subshell_main): for `( ... )` exactly one child is started and what runs in it is subshell_main on exactly this body; the awaited result of exactly that child is interpreted once (handle_job_status), `$?` becomes the status it stands for, and errexit is consulted exactly once, afterwards, with that status (a failing subshell ends the shell under errexit) - unless interpreting the result diverts (stopped child / SIGINT in an interactive shell), which is handed on without errexit; a child that cannot be started gives an interrupt with the error status and leaves `$?` alone. Inside the child the body runs once, its result is applied (apply_result), and the EXIT trap runs exactly once, after both.'
             ' Unit cmdsubst (Verus, yash-semantics/src/expansion/initial/command_subst.rs subshell_body + expand_common) over a model of the descriptor table: in the child, when the command text is run (at most once) its standard output IS the writing end of the pipe and the child holds no other descriptor of either end, nothing else changed (a failing dup2 is reported once and the text does not run); in the parent, whatever happens, afterwards neither end of the pipe is held and nothing else changed - also when the child could not be started, in which case nothing is read and nobody awaited; otherwise the output is read exactly once, from the reading end, at a moment when the parent holds NO descriptor of the writing end (so that end-of-file can come); then the child is awaited until a halt that is not a mere stop, every halt awaited being one of that child, and the status recorded for the substitution is the status that last halt stands for. NOT under contract: the tail of expand_common (UTF-8 decoding, removal of the trailing newlines, conversion to attributed characters), which is one opaque helper call here.'
-            " Unit subshellstart (Verus, yash-env/src/subshell/config.rs Config::start - the common start-up code of every subshell kind): the job control granted is what the configuration asks for if the shell controls jobs at all; in the PARENT nothing but one fork happens, bracketed - iff the child is to ignore SIGINT / SIGQUIT, i.e. the configuration says so and the child is not job-controlled - by blocking the two signals and restoring exactly the saved mask on EVERY path after a successful block, including a failed fork (the parent's signal mask, stack and options are as before); the CHILD body, checked on a copy of the parent's environment (what fork gives it), does only process-group business (setpgid / tcsetpgrp, and only under job control), then disowns the jobs, calls TrapSet::enter_subshell exactly once with (ignore = asked for and not job-controlled, keep stopper dispositions = not job-controlled) BEFORE the task, runs the task exactly once in a Subshell frame on top of the parent's stack, with the parent's options unchanged and the job control granted, and then exits - it never returns into the parent's code."),
+            " Unit subshellstart (Verus, yash-env/src/subshell/config.rs Config::start - the common start-up code of every subshell kind): the job control granted is what the configuration asks for if the shell controls jobs at all; in the PARENT nothing but one fork happens, bracketed - iff the child is to ignore SIGINT / SIGQUIT, i.e. the configuration says so and the child is not job-controlled - by blocking the two signals and restoring exactly the saved mask on EVERY path after a successful block, including a failed fork (the parent's signal mask, stack and options are as before); the CHILD body, checked on a copy of the parent's environment (what fork gives it), does only process-group business (setpgid / tcsetpgrp, and only under job control), then disowns the jobs, calls TrapSet::enter_subshell exactly once with (ignore = asked for and not job-controlled, keep stopper dispositions = not job-controlled) BEFORE the task, runs the task exactly once in a Subshell frame on top of the parent's stack, with the parent's options unchanged and the job control granted, and then exits - it never returns into the parent's code."
+            " Unit asynclist (Verus, yash-semantics/src/command/item.rs Item::execute, execute_async, async_body, nullify_stdin): a synchronous item is exactly its and-or list, run in this shell, once; for `cmd &` exactly one child is started for exactly this and-or list, with background job control asked for and SIGINT / SIGQUIT ignored in it, the list does not run in this shell and the child is not awaited; if it was started, one job with its process ID enters the job table (owned, running, not yet reported; job-controlled iff job control was granted), `$!` becomes that process ID and `$?` is 0; if not, no job, `$!` untouched, an interrupt with status 126. In the child the list runs exactly once, its result is applied and the EXIT trap runs once, in this order; under job control standard input is left alone; nullify_stdin makes standard input /dev/null and changes nothing else (its assert_eq! is discharged from POSIX's lowest-free-descriptor rule)."),
         'trusted_base': ['Verus 0.2026.09.13 + Z3', '/verif/tools/vextract.py'],
         'assumptions': [
             'unit pipeset: the system traits Pipe / Close / Dup are replaced by one synchronous model trait over a ghost descriptor table (fd -> open file description); pipe() returns two descriptors that were not open; close() removes, dup/dup2 add; Env reduced to the system field; a failing close (ignored by the code) is excluded by hypothesis in the no-leak clause; assert_ne! must not fail (obligation)',
@@ -129,6 +132,7 @@ PROPS = {
             'unit subshellcmd: Config::foreground().start_and_wait(..) with its async closure, handle_job_status, apply_errexit / apply_result, print_error, List::execute and run_exit_trap are opaque calls that update a ghost monitor in the reduced Env (the job-name closure goes with the replaced call); await points dropped',
             'unit cmdsubst: the system traits Close / Dup / ReadAll are one synchronous model trait over a ghost descriptor table (fd -> open file description) plus a log of read_all_to calls with the table at that moment; precondition: the two descriptors are a fresh pipe (distinct, open, the only descriptors of their descriptions); Env::wait_for_subshell_to_halt, Error::handle, the lexer constructor, read_eval_loop, ExitStatus::from(ProcessResult) are opaque; the decoding / newline-stripping tail of expand_common is replaced by one opaque helper (rule tokens-to-helper) and is NOT verified; `let x = loop { .. break v }` by rule loop-break-value; debug_assert_eq!(job_control, None) is an obligation; await points dropped; termination of the waiting loop not claimed',
             "unit subshellstart: the closure handed to Env::run_in_child_process is checked INLINE as a block working on verif_child_copy(env) (assumed: fork gives the child a copy of Env) and the fork is an opaque call that is told the child's event log, so the textual order parent-before / child / parent-after is not an execution order; push_frame's guard is taken to live until the child exits; bool::then_some + Option::flatten through a helper with the std meaning; the system calls (block_sigint_sigquit, restore_sigmask, setpgid, getpgrp, tcsetpgrp_with_block), get_tty, enter_subshell, disown_all, the task, exit_or_raise, OptionSet::set / get are opaque calls appending to an event log; the AsyncFnOnce bound is dropped from the signature; the nested `const ME` is lifted to module level; precondition: SIGINT / SIGQUIT are not already blocked by this mechanism; await points dropped",
+            'unit asynclist: Config::new is the derived Default (assumed: no job control, nothing ignored); config.start(..) with its async closure is an opaque call recording the configuration and the and-or list (unit subshellstart has the real start); JobList::insert / set_last_async_pid, AndOrList::execute / to_string, apply_result, run_exit_trap, print_error, is_interactive opaque; the descriptor table is a model trait (close; open answers the lowest free descriptor); the C-string literal is a helper call (Verus has none); that standard input IS /dev/null without job control is proved for nullify_stdin but only stated for the job-control case in async_body (a failing nullify is ignored by the code); await points dropped',
         ],
     },
     'C01': {
@@ -339,7 +343,7 @@ PROPS = {
         'assumptions': ['Mode::with_extensions only', 'two fixed option tables'],
     },
     'C02': {
-        'v_units': ['cmdsearch', 'looplevel', 'returnbi', 'whileloop', 'forloop', 'casecmd', 'condframe', 'simplecmd', 'funcall', 'subshellcmd', 'pipelinerun'],
+        'v_units': ['cmdsearch', 'looplevel', 'returnbi', 'whileloop', 'forloop', 'casecmd', 'condframe', 'simplecmd', 'funcall', 'subshellcmd', 'pipelinerun', 'asynclist'],
         'k_units': ['loopcount'],
         'level': 'other',
         'explanation': (
@@ -399,7 +403,8 @@ PROPS = {
             'the pattern matching inside case (matches), subshells, built-in execution, the $PATH walk '
             'itself (search_path: iterator adapters over strings, assumed), Env::builtin (availability under posixly-correct / portable).'
             ' Unit subshellcmd (Verus, compound_command/subshell.rs execute + subshell_main): for `( ... )` exactly one child is started and what runs in it is subshell_main on exactly this body; the awaited result of exactly that child is interpreted once (handle_job_status), `$?` becomes the status it stands for, and errexit is consulted exactly once, afterwards, with that status (a failing subshell ends the shell under errexit) - unless interpreting the result diverts (stopped child / SIGINT in an interactive shell), which is handed on without errexit; a child that cannot be started gives an interrupt with the error status and leaves `$?` alone. Inside the child the body runs once, its result is applied (apply_result), and the EXIT trap runs exactly once, after both.'
-            ' Unit pipelinerun (Verus, pipeline.rs execute_commands_in_pipeline, execute_job_controlled_pipeline, execute_multi_command_pipeline, shift_or_fail, pid_or_fail, connect_pipe_and_execute_command) against a monitor of the opaque pipe-set / start / wait calls: an empty pipeline has status 0; a one-command pipeline is exactly that command run in this shell, its result handed on, no second errexit; for two or more commands no command runs in this shell: without job control one child is started per command, in order, each right after the pipe set was shifted for it and with the pipe set as just shifted (a next pipe iff it is not the last command), the parent shifts once more (closing its last pipe end) BEFORE it waits, every child started is awaited exactly once, in order (the process IDs are pairwise distinct and each is still unreaped when awaited, so the `expect` cannot fail), none is left unreaped, and `$?` is the status of the last command or, under pipefail, of the rightmost one that failed (0 if none); with job control exactly one child is started for exactly these commands, its awaited result is interpreted once and `$?` is the status it stands for; in both cases errexit is consulted exactly once, at the very end, with that status, and its answer is the result; a failing pipe / start gives an interrupt with status 126 (NOEXEC). In a child, connect_pipe_and_execute_command connects the pipes first and runs the command once, only if that worked.'),
+            ' Unit pipelinerun (Verus, pipeline.rs execute_commands_in_pipeline, execute_job_controlled_pipeline, execute_multi_command_pipeline, shift_or_fail, pid_or_fail, connect_pipe_and_execute_command) against a monitor of the opaque pipe-set / start / wait calls: an empty pipeline has status 0; a one-command pipeline is exactly that command run in this shell, its result handed on, no second errexit; for two or more commands no command runs in this shell: without job control one child is started per command, in order, each right after the pipe set was shifted for it and with the pipe set as just shifted (a next pipe iff it is not the last command), the parent shifts once more (closing its last pipe end) BEFORE it waits, every child started is awaited exactly once, in order (the process IDs are pairwise distinct and each is still unreaped when awaited, so the `expect` cannot fail), none is left unreaped, and `$?` is the status of the last command or, under pipefail, of the rightmost one that failed (0 if none); with job control exactly one child is started for exactly these commands, its awaited result is interpreted once and `$?` is the status it stands for; in both cases errexit is consulted exactly once, at the very end, with that status, and its answer is the result; a failing pipe / start gives an interrupt with status 126 (NOEXEC). In a child, connect_pipe_and_execute_command connects the pipes first and runs the command once, only if that worked.'
+            " Unit asynclist (Verus, yash-semantics/src/command/item.rs Item::execute, execute_async, async_body, nullify_stdin): a synchronous item is exactly its and-or list, run in this shell, once; for `cmd &` exactly one child is started for exactly this and-or list, with background job control asked for and SIGINT / SIGQUIT ignored in it, the list does not run in this shell and the child is not awaited; if it was started, one job with its process ID enters the job table (owned, running, not yet reported; job-controlled iff job control was granted), `$!` becomes that process ID and `$?` is 0; if not, no job, `$!` untouched, an interrupt with status 126. In the child the list runs exactly once, its result is applied and the EXIT trap runs once, in this order; under job control standard input is left alone; nullify_stdin makes standard input /dev/null and changes nothing else (its assert_eq! is discharged from POSIX's lowest-free-descriptor rule)."),
         'trusted_base': ['Verus 0.2026.09.13 + Z3', 'Kani 0.68.0 + CBMC 6.11', '/verif/tools/vextract.py, /verif/tools/kunit.py'],
         'assumptions': [
             'unit cmdsearch: the methods of ClassifyEnv / PathEnv answer according to ghost views builtin_of / function_of / path_hit (implementor obligation, not verified); search_path is external_body (returns path_hit, leaves the environment alone); str::contains(char), CString::default / new are opaque helpers; Builtin / Function reduced to what the search reads; the raw identifier r#type is renamed (Verus aborts on it); derived PartialEq of Type is structural',
@@ -412,6 +417,7 @@ PROPS = {
             'unit whileloop: List::execute and evaluate_condition are external_body (any result, appended to a ghost log in the reduced Env); `?` on ControlFlow through assumed contracts of Try::branch / FromResidual::from_residual; await points dropped; termination not claimed',
             'unit subshellcmd: Config::foreground().start_and_wait(..) with its async closure, handle_job_status, apply_errexit / apply_result, print_error, List::execute and run_exit_trap are opaque calls that update a ghost monitor in the reduced Env (the job-name closure goes with the replaced call); await points dropped',
             'unit pipelinerun: PipeSet is a ghost view (number of shifts, has-next flag of the last shift; the real shift / move_to_stdin_stdout are verified in unit pipeset); Config::new().start(..) / Config::foreground().start_and_wait(..) with their async closures are opaque calls (what the child-side closures do after connect_pipe_and_execute_command - apply_result, run_exit_trap - is NOT under contract here); start answers a process ID that is not among the unreaped ones and no job control; wait_for_subshell_to_finish answers Ok(target, status) for an unreaped child of ours (unit waitsub has the real function); handle_job_status, apply_errexit, controls_jobs, OptionSet::get(PipeFail), print_error opaque; `commands.iter().cloned()` is an assumed model of the slice iterator; `for pid in pids` takes the first element off on every round; debug_assert_eq!(job_control, None) is an obligation; preconditions: a fresh monitor; await points dropped; what happens to children already started when a later pipe / start fails is not constrained',
+            'unit asynclist: Config::new is the derived Default (assumed: no job control, nothing ignored); config.start(..) with its async closure is an opaque call recording the configuration and the and-or list (unit subshellstart has the real start); JobList::insert / set_last_async_pid, AndOrList::execute / to_string, apply_result, run_exit_trap, print_error, is_interactive opaque; the descriptor table is a model trait (close; open answers the lowest free descriptor); the C-string literal is a helper call (Verus has none); that standard input IS /dev/null without job control is proved for nullify_stdin but only stated for the job-control case in async_body (a failing nullify is ignored by the code); await points dropped',
         ],
     },
     'C05': {
@@ -478,7 +484,7 @@ PROPS = {
         ],
     },
     'C13': {
-        'v_units': ['waitsub', 'pipelinerun', 'startwait', 'cmdsubst', 'subshellstart'],
+        'v_units': ['waitsub', 'pipelinerun', 'startwait', 'cmdsubst', 'subshellstart', 'asynclist'],
         'k_units': ['waitstatus'],
         'level': 'other',
         'explanation': (
@@ -503,7 +509,8 @@ PROPS = {
             ' Unit pipelinerun (Verus, pipeline.rs execute_commands_in_pipeline, execute_job_controlled_pipeline, execute_multi_command_pipeline, shift_or_fail, pid_or_fail, connect_pipe_and_execute_command) against a monitor of the opaque pipe-set / start / wait calls: an empty pipeline has status 0; a one-command pipeline is exactly that command run in this shell, its result handed on, no second errexit; for two or more commands no command runs in this shell: without job control one child is started per command, in order, each right after the pipe set was shifted for it and with the pipe set as just shifted (a next pipe iff it is not the last command), the parent shifts once more (closing its last pipe end) BEFORE it waits, every child started is awaited exactly once, in order (the process IDs are pairwise distinct and each is still unreaped when awaited, so the `expect` cannot fail), none is left unreaped, and `$?` is the status of the last command or, under pipefail, of the rightmost one that failed (0 if none); with job control exactly one child is started for exactly these commands, its awaited result is interpreted once and `$?` is the status it stands for; in both cases errexit is consulted exactly once, at the very end, with that status, and its answer is the result; a failing pipe / start gives an interrupt with status 126 (NOEXEC). In a child, connect_pipe_and_execute_command connects the pipes first and runs the command once, only if that worked.'
             ' Unit startwait (Verus, yash-env/src/subshell/config.rs Config::start_and_wait - the way every synchronously awaited child is awaited): exactly one child is started; every halt awaited is one of exactly that child; the answer is that child with the LAST halt reported, a mere stop only when the child is job-controlled, and every earlier report was a stop of a child without job control, which goes on being awaited (a child without job control that is stopped and continued later is awaited until it really ends - its true exit status is what `$?` gets).'
             ' Unit cmdsubst (Verus, yash-semantics/src/expansion/initial/command_subst.rs subshell_body + expand_common) over a model of the descriptor table: in the child, when the command text is run (at most once) its standard output IS the writing end of the pipe and the child holds no other descriptor of either end, nothing else changed (a failing dup2 is reported once and the text does not run); in the parent, whatever happens, afterwards neither end of the pipe is held and nothing else changed - also when the child could not be started, in which case nothing is read and nobody awaited; otherwise the output is read exactly once, from the reading end, at a moment when the parent holds NO descriptor of the writing end (so that end-of-file can come); then the child is awaited until a halt that is not a mere stop, every halt awaited being one of that child, and the status recorded for the substitution is the status that last halt stands for. NOT under contract: the tail of expand_common (UTF-8 decoding, removal of the trailing newlines, conversion to attributed characters), which is one opaque helper call here.'
-            " Unit subshellstart (Verus, yash-env/src/subshell/config.rs Config::start - the common start-up code of every subshell kind): the job control granted is what the configuration asks for if the shell controls jobs at all; in the PARENT nothing but one fork happens, bracketed - iff the child is to ignore SIGINT / SIGQUIT, i.e. the configuration says so and the child is not job-controlled - by blocking the two signals and restoring exactly the saved mask on EVERY path after a successful block, including a failed fork (the parent's signal mask, stack and options are as before); the CHILD body, checked on a copy of the parent's environment (what fork gives it), does only process-group business (setpgid / tcsetpgrp, and only under job control), then disowns the jobs, calls TrapSet::enter_subshell exactly once with (ignore = asked for and not job-controlled, keep stopper dispositions = not job-controlled) BEFORE the task, runs the task exactly once in a Subshell frame on top of the parent's stack, with the parent's options unchanged and the job control granted, and then exits - it never returns into the parent's code."),
+            " Unit subshellstart (Verus, yash-env/src/subshell/config.rs Config::start - the common start-up code of every subshell kind): the job control granted is what the configuration asks for if the shell controls jobs at all; in the PARENT nothing but one fork happens, bracketed - iff the child is to ignore SIGINT / SIGQUIT, i.e. the configuration says so and the child is not job-controlled - by blocking the two signals and restoring exactly the saved mask on EVERY path after a successful block, including a failed fork (the parent's signal mask, stack and options are as before); the CHILD body, checked on a copy of the parent's environment (what fork gives it), does only process-group business (setpgid / tcsetpgrp, and only under job control), then disowns the jobs, calls TrapSet::enter_subshell exactly once with (ignore = asked for and not job-controlled, keep stopper dispositions = not job-controlled) BEFORE the task, runs the task exactly once in a Subshell frame on top of the parent's stack, with the parent's options unchanged and the job control granted, and then exits - it never returns into the parent's code."
+            " Unit asynclist (Verus, yash-semantics/src/command/item.rs Item::execute, execute_async, async_body, nullify_stdin): a synchronous item is exactly its and-or list, run in this shell, once; for `cmd &` exactly one child is started for exactly this and-or list, with background job control asked for and SIGINT / SIGQUIT ignored in it, the list does not run in this shell and the child is not awaited; if it was started, one job with its process ID enters the job table (owned, running, not yet reported; job-controlled iff job control was granted), `$!` becomes that process ID and `$?` is 0; if not, no job, `$!` untouched, an interrupt with status 126. In the child the list runs exactly once, its result is applied and the EXIT trap runs once, in this order; under job control standard input is left alone; nullify_stdin makes standard input /dev/null and changes nothing else (its assert_eq! is discharged from POSIX's lowest-free-descriptor rule)."),
         'trusted_base': ['Verus 0.2026.09.13 + Z3', 'Kani 0.68.0 + CBMC 6.11', '/verif/tools/vextract.py, /verif/tools/kunit.py'],
         'assumptions': [
             'unit waitsub: enabling the SIGCHLD disposition, System::wait, JobList::update_status and wait_for_signal are opaque calls that update a ghost monitor in the reduced Env (rewrite rule tokens-to-helper for the three field-method calls); From<signal::Number> for ExitStatus (number + 0x180) is uninterpreted; the spec functions of the From / TryFrom spec traits of vstd are declared by hand and the real bodies are proved to obey them; await points dropped; termination not claimed; WHEN children change state is not modelled',
@@ -513,6 +520,7 @@ PROPS = {
             'unit startwait: Config::start (fork + the child-side closure), Env::wait_for_subshell_to_halt (the real one is in unit waitsub), ProcessResult::is_stopped and tcsetpgrp_with_block are opaque calls driving a ghost monitor; the AsyncFnOnce bound of the task parameter is dropped from the signature (rule sig-tokens); `let result = loop { .. break result; }` is checked as a deferred initialisation plus a plain break (rule loop-break-value: Verus has no break with a value); a second annotation set judges a loop-free body as it stands; await points dropped; termination of the waiting loop not claimed',
             'unit cmdsubst: the system traits Close / Dup / ReadAll are one synchronous model trait over a ghost descriptor table (fd -> open file description) plus a log of read_all_to calls with the table at that moment; precondition: the two descriptors are a fresh pipe (distinct, open, the only descriptors of their descriptions); Env::wait_for_subshell_to_halt, Error::handle, the lexer constructor, read_eval_loop, ExitStatus::from(ProcessResult) are opaque; the decoding / newline-stripping tail of expand_common is replaced by one opaque helper (rule tokens-to-helper) and is NOT verified; `let x = loop { .. break v }` by rule loop-break-value; debug_assert_eq!(job_control, None) is an obligation; await points dropped; termination of the waiting loop not claimed',
             "unit subshellstart: the closure handed to Env::run_in_child_process is checked INLINE as a block working on verif_child_copy(env) (assumed: fork gives the child a copy of Env) and the fork is an opaque call that is told the child's event log, so the textual order parent-before / child / parent-after is not an execution order; push_frame's guard is taken to live until the child exits; bool::then_some + Option::flatten through a helper with the std meaning; the system calls (block_sigint_sigquit, restore_sigmask, setpgid, getpgrp, tcsetpgrp_with_block), get_tty, enter_subshell, disown_all, the task, exit_or_raise, OptionSet::set / get are opaque calls appending to an event log; the AsyncFnOnce bound is dropped from the signature; the nested `const ME` is lifted to module level; precondition: SIGINT / SIGQUIT are not already blocked by this mechanism; await points dropped",
+            'unit asynclist: Config::new is the derived Default (assumed: no job control, nothing ignored); config.start(..) with its async closure is an opaque call recording the configuration and the and-or list (unit subshellstart has the real start); JobList::insert / set_last_async_pid, AndOrList::execute / to_string, apply_result, run_exit_trap, print_error, is_interactive opaque; the descriptor table is a model trait (close; open answers the lowest free descriptor); the C-string literal is a helper call (Verus has none); that standard input IS /dev/null without job control is proved for nullify_stdin but only stated for the job-control case in async_body (a failing nullify is ignored by the code); await points dropped',
         ],
     },
     'C17': {
